@@ -26,7 +26,8 @@ New(ev, v) == [iid |-> ev.iid, cs |-> ev.cs, cls |-> ev.type.name, type |-> ev.t
 NextInst(ev) ==
   CASE ev.ev = "Construct" -> IF ev.obs.status = "ok" THEN Append(inst, New(ev, Init(ev.type, ev.mode, ev.args, ev.kwargs))) ELSE inst
     [] ev.ev = "Parse"     -> LET r == Decode(ev.type, ev.mode, ev.input, 0, << >>, ev.consts) IN
-                              IF r.ok THEN Append(inst, New(ev, r.v)) ELSE inst
+                              \* an instance exists only when the implementation returned one (a disagreement is flagged by parse-pure)
+                              IF r.ok /\ ev.obs.status = "ok" THEN Append(inst, New(ev, r.v)) ELSE inst
     [] ev.ev = "SetField"  -> IF ev.obs.status # "ok" THEN inst
                               ELSE LET o == Find(ev.iid) IN Replace(ev.iid, [o EXCEPT !.val = UpdPath(o.val, ev.path, ev.value)])
     [] OTHER -> inst        \* Dump, Eq, Bool, FailedParse, Load, SetEndian, AddType change no instance
@@ -36,7 +37,11 @@ Clauses(ev, nxt) ==
   \cup
   (CASE ev.ev = "Construct" -> IF ev.obs.status = "ok" /\ ev.obs.v = Init(ev.type, ev.mode, ev.args, ev.kwargs) THEN {} ELSE {"construct"}
      [] ev.ev = "Parse" -> LET r == Decode(ev.type, ev.mode, ev.input, 0, << >>, ev.consts) IN
-                           IF r.ok /\ ev.obs.status = "ok" /\ ev.obs.v = r.v THEN {} ELSE IF ~r.ok /\ ev.obs.status # "ok" THEN {} ELSE {"parse-pure"}
+                           IF r.ok /\ ev.obs.status = "ok" /\ ev.obs.v = r.v THEN {}
+                           ELSE IF ~r.ok /\ ev.obs.status # "ok" THEN {}
+                           \* input cut inside padding that carries no data: the statement leaves value-or-EOFError open (Codec.tla, "lax")
+                           ELSE IF r.ok /\ "lax" \in r.fl /\ ev.obs.status = "eof" THEN {}
+                           ELSE {"parse-pure"}
      [] ev.ev = "Dump" -> LET o == Find(ev.iid) IN
                           IF ~Writable(o.type, o.mode) \/ ~Fits(o.type, o.mode, o.val) THEN {}
                           ELSE IF ev.obs.status = "ok" /\ ev.obs.b = Enc(o.type, o.mode, o.val, 0).b THEN {}
